@@ -14,8 +14,8 @@ type GenOpts struct {
 	NoZero     bool // never "", 0 or false (struct stores cannot tell them from unset)
 	Nasty      bool // strings with quotes, control characters, non-ASCII, long runs
 	MaxEntries int
-	Density    int // percent chance that an optional node is present
-	KeyPool    int // keys are drawn from a small pool so that histories overlap
+	Density    int  // percent chance that an optional node is present
+	KeyPool    int  // keys are drawn from a small pool so that histories overlap
 	Budget     *int // remaining data nodes this tree may still get (nil: unlimited)
 }
 
